@@ -184,11 +184,23 @@ def run(ctx, rep):
         if not isinstance(v, ast.Name):
             rep.ob("R03.4", "_unbox: the returned proxy is a cached one", False, "returns `%s`" % A.src(v), ctx.loc(n))
             continue
-        defs = rdu.at(n, v.id)
+        # definitions reaching the return, looking through plain copies (`result = fresh` introduced by merging two return
+        # sites into one): (defining node, name the value has there, node up to which a store must have happened)
+        defs = []
+        work, seen_c = [(n, v.id)], set()
+        while work:
+            at_, nm_ = work.pop()
+            for d_ in rdu.at(at_, nm_):
+                if d_ != "param" and isinstance(d_.ast, ast.Assign) and isinstance(d_.ast.value, ast.Name) and \
+                        len(d_.ast.targets) == 1 and isinstance(d_.ast.targets[0], ast.Name) and (d_.id, nm_) not in seen_c:
+                    seen_c.add((d_.id, nm_))
+                    work.append((d_, d_.ast.value.id))
+                else:
+                    defs.append((d_, nm_))
         keys = set()
         okall = bool(defs)
         why = []
-        for d in defs:
+        for d, vname in defs:
             if d == "param":
                 okall = False
                 continue
@@ -210,18 +222,18 @@ def run(ctx, rep):
                 # a .get() result may be None: it must be told apart by identity, never by truthiness (the truth value of
                 # a proxy is the remote object's __bool__/__len__)
                 ident = [t for t in gu.live if t.kind == "test" and isinstance(t.ast, ast.Compare) and
-                         isinstance(t.ast.ops[0], (ast.Is, ast.IsNot)) and A.src(t.ast.left) == v.id and
+                         isinstance(t.ast.ops[0], (ast.Is, ast.IsNot)) and A.src(t.ast.left) == vname and
                          A.src(t.ast.comparators[0]) == "None"]
-                truthy = [t for t in gu.live if t.kind == "test" and isinstance(t.ast, ast.Name) and t.ast.id == v.id]
+                truthy = [t for t in gu.live if t.kind == "test" and isinstance(t.ast, ast.Name) and t.ast.id == vname]
                 if truthy or not ident:
                     okall = False
                     why.append("the cached proxy is tested by truthiness (`if %s:`), which asks the remote object for its "
-                               "__bool__/__len__: a falsy target (empty list) is treated as a cache miss and gets a second proxy" % v.id)
+                               "__bool__/__len__: a falsy target (empty list) is treated as a cache miss and gets a second proxy" % vname)
             else:
                 # fresh proxy: must be stored under the key before the return, on every path
                 stores = [s for s in gu.live if s.kind == "stmt" and isinstance(s.ast, ast.Assign) and any(
                     isinstance(t, ast.Subscript) and K.self_attr(t.value, "_proxy_cache") for t in s.ast.targets)
-                    and A.src(s.ast.value) == v.id]
+                    and A.src(s.ast.value) == vname]
                 for s in stores:
                     for t in s.ast.targets:
                         if isinstance(t, ast.Subscript):
